@@ -179,7 +179,7 @@ theorem unredacted_types_fails :
     is evaluated, and the evaluator resolves `PARENT.x` / `TARGET.x` in the enclosing and the matched
     ad. For every evaluator, every ad and every pair of scope ads that agree on their public
     attributes, the two trailer values are the same — another ad's `ClaimId` cannot reach the
-    cleartext trailer through `MyType = TARGET.ClaimId` (fix a1f9ffc), whether or not the
+    cleartext trailer through `MyType = TARGET.ClaimId` (fix ce45501), whether or not the
     serialised ad has private attributes of its own. -/
 theorem types_independent_of_scope_private (ev : EvalS) (enc : List Bytes) (ad : Ad)
     (p1 p2 t1 t2 : Option Ad) (hp : p1.map redactScope = p2.map redactScope)
